@@ -59,6 +59,17 @@ def build(inst, with_reg_coefficient=1.0):
         def mapping_matrix(self):
             return self._mm
 
+    class VFuncListOverride(VFuncList):
+        """a function list that supplies its own operated (PSF-blurred) mapping matrix, as objects that convolve themselves do"""
+
+        def __init__(self, grid, mapping_matrix, operated, regularization=None):
+            super().__init__(grid=grid, mapping_matrix=mapping_matrix, regularization=regularization)
+            self._op = np.asarray(operated, dtype=float)
+
+        @property
+        def operated_mapping_matrix_override(self):
+            return self._op
+
     H, W = inst["H"], inst["W"]
     m = np.ones(H * W, dtype=bool)
     m[inst["u"]] = False
@@ -91,7 +102,11 @@ def build(inst, with_reg_coefficient=1.0):
                                              border_relocator=None, regularization=reg))
         else:
             Mr = np.array(o["M"], dtype=float) * 2.0 ** o["me"]
-            objs.append(VFuncList(grid=aa.Grid2D.from_mask(mask), mapping_matrix=Mr, regularization=reg))
+            if o.get("override"):
+                objs.append(VFuncListOverride(grid=aa.Grid2D.from_mask(mask), mapping_matrix=Mr,
+                                              operated=ds.convolver.convolve_mapping_matrix(mapping_matrix=Mr), regularization=reg))
+            else:
+                objs.append(VFuncList(grid=aa.Grid2D.from_mask(mask), mapping_matrix=Mr, regularization=reg))
     return ds, objs, {"no_regularization_add_to_curvature_diag_value": eps_real(inst)}
 
 
